@@ -956,6 +956,17 @@ int32_t eccProjectiveAddPoint(psPool_t *pool, const psEccPoint_t *P,
             goto done;
         }
     }
+    /* X is now U1 - U2 and Y is S1 - S2, both fully reduced. If both are
+       zero, P and Q are the same affine point given in two different
+       projective representations. The coordinate comparison at the top of
+       this function cannot see that, and the formulas below would return
+       Z == 0 instead of 2P. (Q == -P, i.e. only X == 0, still yields Z == 0,
+       which is what the callers expect for the point at infinity.) */
+    if (pstm_iszero(&x) == PS_TRUE && pstm_iszero(&y) == PS_TRUE)
+    {
+        err = eccProjectiveDblPoint(pool, P, R, modulus, mp, tmp_int);
+        goto done;
+    }
     /* T2 = 2T2 */
     if ((err = pstm_add(&t2, &t2, &t2)) != PS_SUCCESS)
     {
